@@ -676,8 +676,9 @@ class History(Entry):
                 self.texts.add(t["text"])
                 self.nmonitored += 1
         tds = self.text_delims(c)
+        accepted = set(o["c"] for o, ob in zip(c["ops"], obs) if "c" in o and ob["ans"][0] == "ok")
         chunks = []
-        for ch in c["chunks"]:
+        for i, ch in enumerate(c["chunks"]):
             txt, back = [], ch["rows"]
             for dl in tds:
                 a = alone(ch, dl)
@@ -685,7 +686,10 @@ class History(Entry):
                     continue
                 txt.append([dl, a[0]])
                 back = a[1]
-                if a[2] != file_dtype(dl, ch["dtype"]) or a[1] != rows_of(make_data(ch).astype(np_dtype_of(file_dtype(dl, ch["dtype"])))):
+                # an ACCEPTED chunk whose own text round trip does not give back the written values (C04's subject):
+                # counted; the checker then demands the per-chunk read-back instead of the written values
+                if i in accepted and (a[2] != file_dtype(dl, ch["dtype"])
+                                      or a[1] != rows_of(make_data(ch).astype(np_dtype_of(file_dtype(dl, ch["dtype"]))))):
                     self.inexact_text += 1
             chunks.append({"txt": txt, "back": back})
         return {"obs": obs, "table": sorted(table.values(), key=lambda e: e["joined"]), "chunks": chunks}
@@ -971,7 +975,7 @@ def run(ctx, replay=None):
         ent.nmonitored += e.nmonitored
         ent.inexact_text += e.inexact_text
     ctx.count("monitor:header_ok headers", ent.nmonitored)
-    ctx.count("text chunks whose value round trip is not exact (C04's subject; c_back used)", ent.inexact_text)
+    ctx.count("accepted text chunks whose own value round trip is not exact (C04's subject; per-chunk read-back demanded instead)", ent.inexact_text)
     fails = list(ent.monitor_failures)
     ctx.obligation("contract monitor header_ok (b)(c): eval(joined text) == formatted dict; delimiter, numpy.dtype(_DTYPE), user "
                    "entries as created, on %d headers" % ent.nmonitored, not fails)
